@@ -137,6 +137,24 @@ def gen_counted(rng):
     return pat, lines
 
 
+LIT_PIECES = ["a", "b", "foo", "\r", "\n", "\r\n", "\x00", " ", "é", "x", "\r", "A"]
+
+
+def gen_literal_case(rng):
+    """plain literal patterns (candidates for the fixed-strings shortcut) that may hold raw CR / LF / NUL, under the
+    three terminators, with lines that contain the patterns' own text"""
+    pats = ["".join(rng.choice(LIT_PIECES) for _ in range(rng.randint(1, 3))) for _ in range(rng.choice([1, 1, 2, 3]))]
+    o = default_opts(lt=rng.choice([10, 10, 0, None]), crlf=rng.random() < 0.45, fixed=rng.random() < 0.4,
+                     ban=rng.choice([None, 0]), icase=rng.random() < 0.1, smart=rng.random() < 0.1,
+                     word=rng.random() < 0.1, whole=rng.random() < 0.05)
+    lines = []
+    for p in pats:
+        b = p.encode("utf-8")
+        lines += [b, rng.choice([b"z ", b"", b"a"]) + b + rng.choice([b"", b" q", b"b"])]
+    lines += gen_lines(rng, pats, o, 2)
+    return dict(patterns=pats, opts=o, lines=lines)
+
+
 def scrape_repo_patterns():
     """every short Rust string literal in the repository's regex-related tests (most are patterns)"""
     pats = set()
@@ -343,6 +361,32 @@ def run_builder_cases(ctx, cases, stats):
             m_in.append(vlist([opts_val(cases[i]["opts"]), unparse(tr[0])]))
             m_idx.append(i)
     mo = model_build(ctx, [cases[i]["opts"] for i in m_idx], [unparse(L(parsed[i][0])[0]) for i in m_idx], m_in)
+    # --- A': the fixed-strings shortcut (Config::is_fixed_strings): taken iff the model says so, and then the final
+    #         HIR is the (wrapped) alternation of the literals
+    fx_idx = [i for i, v in enumerate(parsed) if v is not None]
+    fx_out = vlib.model(1111, [vlist([opts_val(cases[i]["opts"]),
+                               vlist([vbytes(p) for p in cases[i]["patterns"]])]) for i in fx_idx])
+    fx_cmp, fx_cmp_idx = [], []
+    for i, o in zip(fx_idx, fx_out):
+        if o.startswith(("MISSING", "STACK", "PARSEFAIL")):
+            continue
+        fv = L(parse_val(o))
+        verdict = L(parsed[i][1])
+        took = (not L(parsed[i][0])) and verdict[0] == 0
+        rep = dict(kind=1111, patterns=cases[i]["patterns"], opts=cases[i]["opts"], model=o[:200], code=unparse(parsed[i][1])[:500])
+        if bool(fv[0]) != took and verdict[0] != 2:
+            ctx.violation("fixed-strings shortcut: model is_fixed_strings=%s but the code %s it (verdict %s) "
+                          "(fixed_strings_shortcut_sound no longer describes the code)"
+                          % (bool(fv[0]), "took" if took else "did not take", verdict[:3]), rep, nfi=True)
+        elif fv[0] and took:
+            stats["fixed_shortcut"] = stats.get("fixed_shortcut", 0) + 1
+            fx_cmp.append(vlist([unparse(fv[1]), unparse(verdict[1])]))
+            fx_cmp_idx.append(i)
+    for i, o in zip(fx_cmp_idx, vlib.code(1106, fx_cmp)):
+        r = L(parse_val(o)) if not o.startswith(("PANIC", "MISSING", "PARSEFAIL")) else [0, 0]
+        if r[1] == 1 and r[0] != 1:
+            ctx.violation("fixed-strings shortcut: final HIR is not the alternation of the literal patterns",
+                          dict(kind=1111, patterns=cases[i]["patterns"], opts=cases[i]["opts"]), nfi=True)
     cmp_in, cmp_idx = [], []
     for k, i in enumerate(m_idx):
         c = cases[i]
@@ -709,6 +753,8 @@ CORPUS = [
     (["[^a]"], dict(lt=0)), (["\\w{3}bar"], {}), (["(foo|bar)\\s+baz"], {}), (["a{2,}b"], {}), (["(?i)foobar\\d"], {}),
     (["\\pL{2}quux"], {}), (["a", "b\\d"], {}), (["x*yz"], {}), (["(?:ab){11}"], {}), (["[a-k]z"], {}), (["[a-j]zz"], {}),
     (["Z|[\\r\\n]"], dict(crlf=True, word=True)), (["ZZ|[\\r\\n]"], dict(crlf=True)), (["Z|\\n"], {}), (["ZZ|\\n"], {}),
+    (["a\rb"], dict(crlf=True)), (["a\rb"], dict(crlf=True, fixed=True)), (["a\nb"], {}), (["a\rb"], {}), (["a\x00b"], dict(lt=0, ban=None)),
+    (["foo", "b\r"], dict(crlf=True)), (["a.b"], dict(fixed=True)), (["ab", "cd"], {}),
     (["foo\\w*?bar|quuux"], {}), (["\\bsherlock\\b"], {}), (["a|"], {}), (["(a|ab)(c|bcd)(d*)"], {}),
 ]
 
@@ -743,6 +789,9 @@ def run(ctx):
         pats = [gen_pattern(rng) for _ in range(np)]
         o = gen_options(rng)
         cases.append(dict(patterns=pats, opts=o, lines=gen_lines(rng, pats, o, 6)))
+    for _ in range(ctx.count(250)):
+        cases.append(gen_literal_case(rng))
+    stats["literal_control_cases"] = ctx.count(250)
     for _ in range(ctx.count(120)):
         pat, lines = gen_counted(rng)
         o = default_opts(word=rng.random() < 0.3, crlf=rng.random() < 0.15, icase=rng.random() < 0.1)
